@@ -10,7 +10,7 @@ import (
 
 func init() {
 	register("C35", propMeta{
-		Explanation:  "(R1) SessionStore.ValidateToken: every success return must be dominated by a lookup of the presented token in the session store that found it (a token revoked or rotated away is no longer there); (R2) every call of signAccessToken passes an expiry that derives from the current time plus the configured TTL, never a stored timestamp, and the stored record's ExpiresAt is the same expression; (R3) parseAndVerifySignedAccessToken returns claims only after hmac.Equal accepted the signature computed with the server secret over header.payload and after the exp claim was checked against the clock; Refresh rejects unknown and expired refresh tokens, removes the old access and refresh tokens before committing, and RevokeToken removes both tokens of the session. (R4) a session record is stored under exactly the two tokens it names (CreateSession, Refresh): revocation and rotation delete by the names in the record.",
+		Explanation:  "(R1) SessionStore.ValidateToken: every success return must be dominated by a lookup of the presented token in the session store that found it (a token revoked or rotated away is no longer there); (R2) every call of signAccessToken passes an expiry that derives from the current time plus the configured TTL, never a stored timestamp, and the stored record's ExpiresAt is the same expression; (R3) parseAndVerifySignedAccessToken returns claims only after hmac.Equal accepted the signature computed with the server secret over header.payload and after the exp claim was checked against the clock; Refresh rejects unknown and expired refresh tokens, removes the old access and refresh tokens before committing, and RevokeToken removes both tokens of the session. (R4) a session record is stored under exactly the two tokens it names (CreateSession, Refresh): revocation and rotation delete by the names in the record. R3 also requires the comparison to be between the presented signature text itself and the canonical encoding of the expected MAC (or a strict decoding).",
 		DoesNotCover: "Strength of the secret, the HTTP layer's use of these functions, and clock skew.",
 	}, runC35)
 }
